@@ -5,6 +5,12 @@
         /// SymbolErrorTrait::as_tuple (symbols.rs; closure in Result::map): id and type of the
         /// record, or (Err(MissingBinding), Type::Undefined)
         #[verifier::external_body] pub fn as_tuple(&self) -> (r: (SymbolIdResult, Type)) ensures r == self.tuple() { unimplemented!() }
+        /// the rest of the API of a look-up result (SymbolErrorTrait::to_symbol_id, SymbolType::symbol_type, Result::is_ok / is_err):
+        /// not used by the analyser today; stated so that an edit that starts using them stays inside the verified dialect
+        #[verifier::external_body] pub fn to_symbol_id(&self) -> (r: SymbolIdResult) ensures r == self.tuple().0 { unimplemented!() }
+        #[verifier::external_body] pub fn symbol_type(&self) -> (r: &Type) ensures *r == self.tuple().1 { unimplemented!() }
+        #[verifier::external_body] pub fn is_ok(&self) -> (r: bool) ensures r == (self.tuple().0 is Ok) { unimplemented!() }
+        #[verifier::external_body] pub fn is_err(&self) -> (r: bool) ensures r == (self.tuple().0 is Err) { unimplemented!() }
     }
     /// one scope: name -> (id, type of the symbol)   (the stack-of-maps view PROVED in unit SYM,
     /// with the symbol's type looked up in the store)
@@ -41,6 +47,14 @@
         /// unit SYM: in_global_scope / current_scope_type
         #[verifier::external_body] pub fn in_global_scope(&self) -> (r: bool) requires self.wf(), ensures r == self.global() { unimplemented!() }
         #[verifier::external_body] pub fn current_scope_type(&self) -> (r: ScopeType) requires self.wf(), ensures r == self.scope_type() { unimplemented!() }
+        /// unit SYM: lookup (innermost scope first).  The table is borrowed immutably: this look-up reports nothing and is not
+        /// recorded in the trace (the analyser goes through Context::lookup_symbol / lookup_gate_symbol, which do both)
+        #[verifier::external_body] pub fn lookup(&self, name: &str) -> (r: SymbolRecordResult)
+            requires self.wf(),
+            ensures
+                resolve_in(self.scopes(), name@) is Some ==> r.tuple() == (Ok::<SymbolId, SymbolError>(resolve_in(self.scopes(), name@)->Some_0.0), resolve_in(self.scopes(), name@)->Some_0.1),
+                resolve_in(self.scopes(), name@) is None ==> r.tuple() == (Err::<SymbolId, SymbolError>(SymbolError::MissingBinding), Type::Undefined),
+        { unimplemented!() }
         /// unit SYM: enter_scope (the body panics on ScopeType::Global)
         #[verifier::external_body] pub fn enter_scope(&mut self, scope_type: ScopeType)
             requires old(self).wf(), scope_type != ScopeType::Global,
